@@ -24,7 +24,7 @@ equals, byte for byte, the reply stream obtained from direct sockets to the same
 per request from the service the resolver names, GetInfo from the resolver itself - and, after the client closes \
 its side, the bridge exits with status 0. Variant `close right after the last request`: only exit status 0 and \
 `stdout is a prefix of the expected stream` are asserted. Further variants: the service spells its JSON with blanks; the client closes while a 300 ms reply is pending; the client hangs up altogether (stdin and stdout) while a 400 ms reply is pending - exit status 0 in every mode; bytes that arrive only after the client closed its side make the session slow (twice in a row: stuck); in the three copying modes the client closes its sending side while the service is busy with a 4 s call: the bridge stops (more than 2.5 s, twice in a row, is waiting for the service). Non-trivial: a session that switches target services, \
-streams, or upgrades; distinct by (mode, sequence, client behaviour). Two sessions of 401 calls in resolver mode (one connection per call) run through a bridge process limited to 128 descriptors.";
+streams, or upgrades; distinct by (mode, sequence, client behaviour). Two sessions of 401 calls in resolver mode (one connection per call) run through a bridge process limited to 128 descriptors. In the copying modes sessions also end with a call after which the service closes the connection right behind its reply (ill-typed parameters, a refused stream): every reply still reaches the client and the bridge exits 0.";
 
 #[derive(Clone, Copy, Debug, PartialEq, Eq, Hash)]
 pub enum Mode {
@@ -897,6 +897,34 @@ pub fn run(args: &Args) -> ! {
     }
     if !ctx.failed() {
         stops_when_client_closes(&mut ctx, &w);
+    }
+    if !ctx.failed() {
+        // the service closes right behind its last reply (a call with ill-typed parameters, a stream the
+        // library refuses): in the copying modes the client still gets every reply, and the bridge exits 0
+        'closing: for mode in [Mode::Connect, Mode::Activate, Mode::InnerBridge] {
+            for last in [Kind::BadType, Kind::BadMissing, Kind::NaiveStream] {
+                for pipelined in [true, false] {
+                    for lead in [0usize, 2] {
+                        let mut syms: Vec<Sym> = [Sym { kind: Kind::Echo, flag: Flag::None }, Sym { kind: Kind::Stream2, flag: Flag::More }][..lead].to_vec();
+                        syms.push(Sym { kind: last, flag: Flag::None });
+                        let s = Session { mode, syms, pipelined, upgrade: None, payload_pipelined: false, close_early: false, spaced: false, slow_tail: false, hangup_while_waiting: false, greet: false, greet_one_write: false, greet_late: false };
+                        ctx.case(Some(hash64(&sess_json(&s).to_string())));
+                        ctx.class("service-closes-right-behind-its-last-reply");
+                        // several times: whether the reply and the hang-up reach the bridge in one wake-up is a race
+                        for _ in 0..ctx.tier.pick(3, 12) {
+                            match judge(&w, &s) {
+                                Ok(Some(_)) => slow.set(slow.get() + 1),
+                                Ok(None) => {}
+                                Err(f) => {
+                                    ctx.violation(&f.key, &f.what, "c18", sess_json(&s));
+                                    break 'closing;
+                                }
+                            }
+                        }
+                    }
+                }
+            }
+        }
     }
     if !ctx.failed() {
         // long sessions in resolver mode (a connection per call): 400 calls, most of them oneway, through a
